@@ -182,6 +182,7 @@ Proof.
 Qed.
 
 Lemma full_resync_ok : forall cfg p w w',
+  plan_simple p = true ->
   NoDup (keys (e_routes (w_env w))) ->
   do_full_resync cfg p w = (false, w') ->
   w_env w' = w_env w /\ s_rescan (w_st w') = [] /\ s_full (w_st w') = false /\
@@ -189,10 +190,11 @@ Lemma full_resync_ok : forall cfg p w w',
   (forall k r, dpk w' k = Some r -> kroute_is_ours cfg (w_st w') r = true) /\
   (forall k r, tbl cfg (w_env w') k = Some r -> kroute_is_ours cfg (w_st w') r = true -> dpk w' k = Some r).
 Proof.
-  intros cfg p w w' ND H. unfold do_full_resync in H.
+  intros cfg p w w' PS ND H. unfold do_full_resync in H.
   destruct (nl_call p NLinkList w) as [f w1] eqn:E1. apply nl_call_frame in E1. destruct E1 as [A1 A2].
   destruct f; [discriminate|].
   remember (refresh_all cfg (e_now (w_env w)) (e_links (w_env w1)) (w_st w1)) as s1.
+  rewrite (full_list_simple cfg p _ PS) in H.
   destruct (list_retry p NRouteListAll 5 (wst w1 s1)) as [failed w2] eqn:E2.
   apply list_retry_frame in E2. simpl in E2. destruct E2 as [B1 B2].
   destruct failed; [discriminate|].
@@ -254,6 +256,7 @@ Qed.
    One attemptApply that performs the full resync and reports success leaves the kernel converged.
    ================================================================================================ *)
 Lemma full_attempt_converges : forall cfg p w w',
+  plan_simple p = true ->
   NoDup (keys (e_routes (w_env w))) ->
   s_full (w_st w) = true ->
   attempt cfg p w = (false, w') ->
@@ -266,7 +269,7 @@ Lemma full_attempt_converges : forall cfg p w w',
         (kroute_is_ours cfg (w_st w') r = false /\ lookup rkey_eqb (s_desired (w_st w')) (snd kk) = None)) ->
        lookup kkey_eqb (e_routes (w_env w')) kk = Some r).
 Proof.
-  intros cfg p w w' ND FULL H RS. unfold attempt in H.
+  intros cfg p w w' PS ND FULL H RS. unfold attempt in H.
   destruct (handle p w) as [ok w1] eqn:Eh. apply handle_frame in Eh. destruct Eh as [H1 H2].
   destruct ok; simpl in H; [|discriminate].
   rewrite H1, FULL in H.
@@ -275,7 +278,7 @@ Proof.
   destruct (apply_updates cfg p w2) as [e2 w3] eqn:Ea.
   destruct e2; [discriminate|].
   injection H as <-.
-  apply full_resync_ok in Ef; [|rewrite H2; auto].
+  apply full_resync_ok in Ef; [|exact PS|rewrite H2; auto].
   destruct Ef as [EV [R2 [_ [Sub [Ours Own]]]]].
   destruct (cleanup_grace_frame cfg (e_now (w_env w3)) (w_st w3)) as [CD [CI [CR CP]]].
   cbn [w_st w_env wst] in *.
